@@ -7,6 +7,7 @@ import (
 	"crypto/sha256"
 	"encoding/hex"
 	"fmt"
+	"github.com/bartossh/Computantis/src/gossip"
 	"sort"
 	"strconv"
 	"strings"
@@ -30,6 +31,7 @@ type Cfg struct {
 	Adversary string      // C12: name of the malicious relay ("" = none)
 	Masks     []int       // C12: forgery subsets the adversary may attach (bit mask over 6 forgeries)
 	Prop      string      // "C11" or "C12"
+	Bait      bool        // C12: the adversary may first send a neighbour a bait vertex naming the item's hash as parent
 	SyncRPC   bool        // gossip RPCs return to the sender only on delivery, with the handler's answer
 }
 
@@ -52,8 +54,9 @@ type Model struct {
 	injected  bool // "then-second": the second item has been proposed at the origin
 	preBag    int
 	advDone   map[int]bool
-	lastFirst bool // the last delivery handed its item to that node for the first time
-	lastHeld  bool // the target already held the item before the last delivery
+	baited    map[string]bool // C12: neighbours the adversary has sent its bait vertex to
+	lastFirst bool            // the last delivery handed its item to that node for the first time
+	lastHeld  bool            // the target already held the item before the last delivery
 	// orphanAdmitted[node][item]: the node admitted the item outside a first-time gossip delivery
 	// (missing-parent fetch or orphan retry) - the path on which the code never forwards
 	orphanAdmitted map[string]map[[32]byte]bool
@@ -109,6 +112,7 @@ func (m *Model) Init() {
 	m.sends = map[string]int{}
 	m.items = nil
 	m.advDone = map[int]bool{}
+	m.baited = map[string]bool{}
 	m.injected = false
 	m.settled = false
 	m.kinds = map[[32]byte]string{}
@@ -266,6 +270,21 @@ func (m *Model) Enabled() []string {
 			out = append(out, fmt.Sprintf("V:%d", msg.ID))
 		} else if m.Cfg.Dup && msg.Delivered == 1 {
 			out = append(out, fmt.Sprintf("U:%d", msg.ID))
+		}
+	}
+	if m.Cfg.Bait && m.Cfg.Adversary != "" {
+		learnt := false
+		for _, msg := range m.Net.Bag {
+			if msg.To == m.Cfg.Adversary {
+				learnt = true
+			}
+		}
+		if learnt {
+			for i, nb := range m.neighbours(m.Cfg.Adversary) {
+				if !m.baited[nb] && nb != m.Cfg.Origin {
+					out = append(out, fmt.Sprintf("B:%d", i))
+				}
+			}
 		}
 	}
 	if (m.Cfg.Items == "then-second" || m.Cfg.Items == "pair-then-third") && !m.injected && m.quiescent() {
@@ -427,6 +446,25 @@ func (m *Model) apply(e string) (res string, direct [32]byte, node string) {
 		mask, _ := strconv.Atoi(p[2])
 		m.adversary(id, mask)
 		return "forged", direct, ""
+	case "B":
+		// bait: the adversary gossips, to neighbour p[1], a vertex of its own (validly signed) whose parents are the hash
+		// of the item it has learnt about; the neighbour asks its peers - the adversary among them - for that "parent"
+		i, _ := strconv.Atoi(p[1])
+		nb := m.neighbours(m.Cfg.Adversary)[i]
+		m.baited[nb] = true
+		adv := m.byName[m.Cfg.Adversary]
+		item := m.items[0]
+		t := world.MakeTx(world.Cast("A"), world.Cast("B").Addr, "bait-"+nb, []byte("bait"), spice.Melange{}, 9300+i)
+		v := m.W.Craft(adv.Actor, t, item, item, 2)
+		pv := gossip.VerifVertexToProto(&v)
+		d, sg := adv.Actor.Sign(append([]byte(adv.Actor.Addr), v.Hash[:]...))
+		msg := &world.Msg{From: m.Cfg.Adversary, To: nb, Vrx: &protobufcompiled.VrxMsgGossip{Vertex: pv,
+			Gossipers: []*protobufcompiled.Gossiper{{Address: adv.Actor.Addr, Digest: d[:], Signature: sg}}}}
+		msg.ID = len(m.Net.Bag)
+		m.Net.Bag = append(m.Net.Bag, msg)
+		res := m.Net.Deliver(msg.ID)
+		vsched.Settle()
+		return "bait-" + res, direct, ""
 	}
 	panic("gnet: unknown event " + e)
 }
@@ -472,6 +510,13 @@ func (m *Model) adversary(id, mask int) {
 		if mask&32 != 0 { // Sybil key
 			sy := world.Cast("sybil")
 			gs = append(gs, sign(sy, sy.Addr, item))
+		}
+		if mask&128 != 0 { // signatures the adversary captured from parent-fetch requests the honest node sent to it for this very hash
+			for _, f := range m.Net.Fetches {
+				if f.To == m.Cfg.Adversary && f.From == nb && len(f.Req.Data) == 32 && [32]byte(f.Req.Data) == item {
+					gs = append(gs, &protobufcompiled.Gossiper{Address: h.Actor.Addr, Digest: f.Req.Hash, Signature: f.Req.Signature})
+				}
+			}
 		}
 		if mask&64 != 0 { // replay: genuine entries of honest nodes, copied verbatim from messages about EARLIER items
 			seen := map[string]bool{}
@@ -566,7 +611,7 @@ func (m *Model) Key() string {
 		fb = append(fb, k)
 	}
 	sort.Strings(fb)
-	k := strings.Join(parts, " ") + " BAG[" + strings.Join(bag, " ") + "] EXP[" + strings.Join(exp, ",") + "] FWD[" + strings.Join(fb, ",") + "]" + fmt.Sprintf(" INJ=%v SET=%v", m.injected, m.settled)
+	k := strings.Join(parts, " ") + " BAG[" + strings.Join(bag, " ") + "] EXP[" + strings.Join(exp, ",") + "] FWD[" + strings.Join(fb, ",") + "]" + fmt.Sprintf(" INJ=%v SET=%v BAIT=%v", m.injected, m.settled, baitKey(m.baited))
 	h := sha256.Sum256([]byte(k))
 	return hex.EncodeToString(h[:12])
 }
@@ -732,4 +777,13 @@ func (m *Model) starvedByOrphanPath(n string, it [32]byte) bool {
 		}
 	}
 	return false
+}
+
+func baitKey(b map[string]bool) string {
+	var l []string
+	for k := range b {
+		l = append(l, k)
+	}
+	sort.Strings(l)
+	return strings.Join(l, ",")
 }
